@@ -59,6 +59,10 @@ CHECKS.update({
  'C02': dict(level='model_checking', technique='explicit-state BFS over DB operation sequences; in every reached state exhaustive enumeration of iterator movement sequences on every range and view against a cursor model; same enumeration on merged/indexed component iterators',
    text='For every state reached by sequences of puts, deletes, batches, compactions, snapshots and transactions (layout-forcing options, bytewise and shortlex), for the DB, each live snapshot and the open transaction, and for every range with bounds in {nil} plus 7 probes: every sequence of First/Last/Next/Prev/Seek(p) up to the stated depth runs on a fresh iterator and is compared move by move with a cursor over the sorted live pairs. Component level: NewMergedIterator over every assignment of <=5 keys to 3 children, NewIndexedIterator over every split into runs.',
    note='Movement depth 2-3 (quick) / 3-4 (thorough); table and memdb iterators are enumerated in C13 / C14.', design='4/C02'),
+
+ 'C14': dict(level='model_checking', technique='exhaustive operation-sequence enumeration on the real memdb against a sorted-map model, plus stateless DFS over schedules at statement granularity (vrewrite -stmt) of one writer against readers',
+   text='Every sequence to the depth over Put (3 keys x 3 value lengths) / Delete / Reset; after each Len, Size, Get/Contains/Find on probes and, at the deepest levels, every movement sequence on 27 ranges. Concurrent: scheduling points before every statement of package memdb; a writer (overwrite changing the value length, delete) against 1-2 readers under every schedule within the deviation bound; readers see strictly monotone keys and only pairs stored at some time.',
+   note='Concurrent part deviation-bounded (3 quick / 5 thorough on single-reader drivers).', design='4/C14'),
 })
 NA = {}
 
